@@ -92,11 +92,11 @@ Fixpoint create_sessions (s : srv) (fuel : nat) : srv :=
         (* waited too long: dropped, next *)
         create_sessions (mkSrv (v_max s0) (v_nb s0) (v_accept s0) rest (v_sessions s0) (v_now s0) (v_timeout s0) (v_evict s0) (v_served s0) (id :: v_dropped s0)) f
       else
-        let admit (x : srv) : srv :=
+        let take_in (x : srv) : srv :=
           mkSrv (v_max x) (v_nb x + 1) (v_accept x) (v_queue x) (mkSess id (v_now x) 1 :: v_sessions x) (v_now x)
                 (v_timeout x) (v_evict x) (id :: v_served x) (v_dropped x) in
         let '(s1, ok) := q_check s0 in
-        if ok then create_sessions (admit s1) f
+        if ok then create_sessions (take_in s1) f
         else
           (* the popped socket is not served: it is dropped with the iteration's binding *)
           let lost := mkSrv (v_max s1) (v_nb s1) (v_accept s1) (v_queue s1) (v_sessions s1) (v_now s1) (v_timeout s1) (v_evict s1) (v_served s1) (id :: v_dropped s1) in
@@ -107,7 +107,7 @@ Fixpoint create_sessions (s : srv) (fuel : nat) : srv :=
             | O => mkSrv (v_max s2) (v_nb s2) (v_accept s2) (v_queue s2) (v_sessions s2) (v_now s2) (v_timeout s2) (v_evict s2) (v_served s2) (id :: v_dropped s2)
             | _ =>
               let '(s3, ok3) := q_check s2 in
-              if ok3 then create_sessions (admit s3) f
+              if ok3 then create_sessions (take_in s3) f
               else mkSrv (v_max s3) (v_nb s3) (v_accept s3) (v_queue s3) (v_sessions s3) (v_now s3) (v_timeout s3) (v_evict s3) (v_served s3) (id :: v_dropped s3)
             end
       end
